@@ -3,6 +3,7 @@
 package c01
 
 import (
+	"bytes"
 	"flag"
 	"fmt"
 	"math/rand"
@@ -20,7 +21,22 @@ import (
 
 var tsRe = regexp.MustCompile(`(\d\d+):(\d\d):(\d\d)(\.\d\d\d)?`)
 
+// ttmlPart returns the TTML document of an stpp sample (image-profile samples carry images after it).
+func ttmlPart(b []byte) []byte {
+	if i := bytes.Index(b, []byte("</tt>")); i >= 0 {
+		return b[:i+5]
+	}
+	return b
+}
+
+// normText is the payload identity of an stpp sample: TTML with timestamps removed + digest of what follows it.
+func normText(b []byte) string {
+	t := ttmlPart(b)
+	return tsRe.ReplaceAllString(string(t), "T") + "|" + project.Digest(b[len(t):])
+}
+
 func ttmlTimes(b []byte) []int64 {
+	b = ttmlPart(b)
 	var out []int64
 	for _, m := range tsRe.FindAllStringSubmatch(string(b), -1) {
 		h, _ := strconv.ParseInt(m[1], 10, 64)
@@ -100,8 +116,8 @@ func Main(args []string) error {
 			modes []string
 		}
 		reps := []repSel{{a.Video, []string{"number", "time", "tlnr"}}}
-		if a.Text != nil {
-			reps = append(reps, repSel{a.Text, []string{"number", "time", "tlnr"}})
+		for _, tx := range a.Texts {
+			reps = append(reps, repSel{tx, []string{"number", "time", "tlnr"}})
 		}
 		for _, rs := range reps {
 			rt := rs.rt
@@ -197,7 +213,7 @@ func Main(args []string) error {
 														continue
 													}
 													vm, err2 := project.ParseMediaRaw(vd)
-													if err2 == nil && tsRe.ReplaceAllString(string(vm), "T") == tsRe.ReplaceAllString(string(sm), "T") {
+													if err2 == nil && normText(vm) == normText(sm) {
 														e["pidx"] = j
 													}
 												}
